@@ -40,6 +40,14 @@ namespace xsimd
         template <size_t N, class A, class T>
         XSIMD_INLINE batch<T, A> rotate_left(batch<T, A> const& self, requires_arch<generic>) noexcept;
 
+        namespace detail
+        {
+            // Transpose a matrix of batch<T, A> with the kernel written for batch<U, A> (same lane width) without
+            // aliasing the storage; defined in generic/xsimd_generic_memory.hpp, once every kernel is declared.
+            template <class U, class A, class T>
+            XSIMD_INLINE void transpose_as(batch<T, A>* matrix_begin, batch<T, A>* matrix_end) noexcept;
+        }
+
     }
 }
 
